@@ -6,11 +6,15 @@ import PopsModel.Lemmas.HostMech
 import PopsModel.Lemmas.HostMech2
 namespace Pops
 
-/-- One latency step on a cell whose exposed list has the configured length L + 1: the front
-    cohort joins the infected and the youngest mortality cohort iff step >= L, and every cohort
-    ages by exactly one position. -/
-theorem C05_shift (latency step : Nat) (c : Cell) (hlen : c.e.length = latency + 1) :
+/-- One latency step on a cell: the front cohort joins the infected and the youngest mortality
+    cohort iff step >= L, and every cohort ages by exactly one position. In the C++ the exposed
+    list has the configured length L + 1; the statement holds for every non-empty list.
+    `he : c.e ≠ []` (which replaces the former `c.e.length = latency + 1`) is not used by the proof
+    but is kept on purpose: on an empty exposed vector `step_forward` calls `exposed_.front()` and
+    rotates an empty range (undefined behaviour), while the model leaves the cell unchanged. -/
+theorem C05_shift (latency step : Nat) (c : Cell) (he : c.e ≠ []) :
     stepForwardSpec latency step c (c.stepForward .sei latency step) = true := by
+  have _ := he  -- domain of the C++ (see the doc comment), not needed by the model
   exact mech_C05_shift latency step c
 
 /-- No latency transition happens before step L of the run; SI cells are never touched. -/
@@ -49,9 +53,14 @@ def Cell.addN (mt : ModelType) : Nat → Cell → Cell
   | n + 1, c => Cell.addN mt n (c.addDisperserAt mt).1
 
 /-- With L = 0 the SEI spread step (landings, then the latency step) leaves exactly the SI state:
-    same susceptible, infected, mortality cohorts, totals. -/
+    same susceptible, infected, mortality cohorts, totals.
+    `hm : c.mort ≠ []` is not used by the proof but is kept on purpose: with an empty mortality
+    tracker both `add_disperser_at` (SI) and `step_forward` (SEI) call
+    `mortality_tracker_vector_.back()` on an empty vector (undefined behaviour), while the model's
+    `addLast [] _ = []` is total. -/
 theorem C05_L0_equals_SI (n step : Nat) (c : Cell) (he : c.e = [0]) (hte : c.te = 0) (hm : c.mort ≠ []) :
     (Cell.addN .sei n c).stepForward .sei 0 step = { Cell.addN .si n c with e := [0], te := 0 } := by
+  have _ := hm  -- domain of the C++ (see the doc comment), not needed by the model
   exact mech_C05_L0_equals_SI Cell.addN (fun _ _ => rfl) (fun _ _ _ => rfl) n step c he hte
 
 example : ∃ c : Cell, c.e.length = 2 + 1 ∧ c.e = [1, 0, 2] := ⟨⟨5, [1, 0, 2], 0, 0, 3, [0], 0, 8⟩, by decide⟩
